@@ -687,7 +687,7 @@ fn run(ctx: &mut Ctx) {
         }
         let mut k = 0u64;
         for d in ["-1", "0", "1", "60", "-9", "9223372036854775807", "-9223372036854775808"] {
-            for u in ["--update=-1", "--update=3", "--update=-7"] {
+            for u in ["--update=-1", "--update=3", "--update=-7", "--update=9223372036854775807", "--update=-9223372036854775808", "--update=10000000000000", "--update=-10000000000000"] {
                 for upd in [false, true] {
                     for i in ["Q", ""] {
                         k += 1;
@@ -717,6 +717,26 @@ fn run(ctx: &mut Ctx) {
             aged_draw(ctx, k, opts);
         }
     }
+    // (d5) odd observer strings and the largest filter values, the table drawn after every frame of a stream
+    // that contains decodable positions (main() hands the -O string to set_observer_coords_from_str)
+    for (k, o) in ["abc", "", "1", "1,2,3", "NaN,NaN", "1e999,0", ",", "52.6,", ",-8", "52.6;-8.6", "  ", "91,181", "-0,-0", "inf,-inf", "1,2,", "1e-320,1e-320", "\u{e9},\u{e9}", "52.6,-8.6\0"].iter().enumerate() {
+        job += 1;
+        if !ctx.mine(job) {
+            continue;
+        }
+        let r = std::panic::catch_unwind(|| squitterator::set_observer_coords_from_str(o));
+        ctx.eval();
+        ctx.count("odd-observer-string");
+        if r.is_err() {
+            ctx.violation(&format!("C01/observer-string/{}", crate::profile_name()), &format!("-O {o:?}"), || format!("set_observer_coords_from_str({o:?}) panicked, {} build", crate::profile_name()), || json!({"kind": "observer", "k": k, "profile": crate::profile_name()}));
+            continue;
+        }
+        let opts: Vec<String> = vec!["--update=-1".into(), "-i".into(), "aAews".into(), format!("--observer-coord={o}"), "-f".into(), "17".into(), "-f".into(), "4294967295".into(), "-M".into(), "4294967295".into()];
+        let mut stream = mixed_stream();
+        stream.extend(cpr_pair_lines().into_iter().take(40));
+        run_option_set(ctx, &opts, &stream);
+    }
+    squitterator::set_observer_coords_from_str(crate::props::rowmodel::OBSERVER_STR);
     // (d4) printing tables of 21..64 rows whose sort keys are chains of close neighbours and duplicates
     for letter in ['s', 'a', 'A', 'v', 'V', 'N', 'S', 'W', 'E', 'd', 'D', 'c'] {
         job += 1;
@@ -856,6 +876,15 @@ fn replay(ctx: &mut Ctx, case: &Value) {
     let o: Vec<&str> = opts.iter().map(|s| s.as_str()).collect();
     let bytes = |v: &Value| -> Vec<u8> { v.as_array().map(|a| a.iter().filter_map(|x| x.as_u64().map(|b| b as u8)).collect()).unwrap_or_default() };
     match case.get("kind").and_then(|x| x.as_str()) {
+        Some("observer") => {
+            let all = ["abc", "", "1", "1,2,3", "NaN,NaN", "1e999,0", ",", "52.6,", ",-8", "52.6;-8.6", "  ", "91,181", "-0,-0", "inf,-inf", "1,2,", "1e-320,1e-320", "\u{e9},\u{e9}", "52.6,-8.6\0"];
+            let o = all[case.get("k").and_then(|x| x.as_u64()).unwrap_or(0) as usize % all.len()];
+            let r = std::panic::catch_unwind(|| squitterator::set_observer_coords_from_str(o));
+            crate::run::say(&format!("set_observer_coords_from_str({o:?}): panicked: {}", r.is_err()));
+            if r.is_err() {
+                ctx.violation("C01/observer-string", o, || "panicked".into(), || case.clone());
+            }
+        }
         Some("dense") => {
             let letter = case.get("letter").and_then(|x| x.as_str()).and_then(|s| s.chars().next()).unwrap_or('d');
             let n = case.get("n").and_then(|x| x.as_u64()).unwrap_or(24) as usize;
